@@ -9,7 +9,8 @@
 #define C10_ORACLE_H
 
 // kinds of a special member
-enum { K_NONE = 0, K_USER = 1, K_DEFAULT = 2, K_DELETE = 3, K_VIRTUAL = 4 /* destructor only: user-provided virtual */ };
+enum { K_NONE = 0, K_USER = 1, K_DEFAULT = 2, K_DELETE = 3, K_VIRTUAL = 4 /* destructor only: user-provided virtual */,
+       K_PURE = 5 /* destructor of a BASE class only: virtual ~B() = 0; (c10d_* functions) */ };
 // access, with the numbering of CPPVisibility (V_published = 0 is interrogate's own and means public)
 enum { A_PUBLIC = 1, A_PROTECTED = 2, A_PRIVATE = 3 };
 // the data member
@@ -55,13 +56,16 @@ C10_CONSTEXPR inline bool c10_copy_constructible(C10Bits b) {
 }
 
 // ---- one base class:  class B { <special members of B, bits b>; int m; };  class A : public B { [void f();] int m; };
-// A declares no special member itself (everything implicit); a_overrides: A declares `void f();`, which overrides B's
-// pure virtual f when B has one (and is an ordinary non-virtual function otherwise).  b.mem must be M_INT.
+// A declares no special member itself (everything implicit); a_overrides != 0: A declares f, which overrides B's pure
+// virtual f when B has one (and is an ordinary non-virtual function otherwise): 1 = `void f();` against
+// `virtual void f() = 0;`, 2 = `B *f();` against `virtual B *f() = 0;` (identical return type), 3 = `A *f();` against
+// `virtual B *f() = 0;` (covariant return type).  b.mem must be M_INT.  A pure virtual destructor of B (K_PURE) does not
+// make A abstract: A's implicit destructor overrides it.
 // a private VIRTUAL destructor in B makes the program ill-formed (A's implicit destructor would be a deleted function
 // overriding a non-deleted one): outside the domain
-C10_CONSTEXPR inline bool c10d_well_formed(C10Bits b) { return !(b.dt == K_VIRTUAL && b.dt_vis == A_PRIVATE); }
+C10_CONSTEXPR inline bool c10d_well_formed(C10Bits b) { return !((b.dt == K_VIRTUAL || b.dt == K_PURE) && b.dt_vis == A_PRIVATE); }
 C10_CONSTEXPR inline bool c10d_abstract(C10Bits b, int a_overrides) { return b.pv != 0 && !a_overrides; }
-C10_CONSTEXPR inline bool c10d_polymorphic(C10Bits b, int a_overrides) { return b.pv != 0 || b.dt == K_VIRTUAL; }
+C10_CONSTEXPR inline bool c10d_polymorphic(C10Bits b, int a_overrides) { return b.pv != 0 || b.dt == K_VIRTUAL || b.dt == K_PURE; }
 // A's implicit destructor is deleted when B's is deleted or not accessible from A (private) [class.dtor]
 C10_CONSTEXPR inline bool c10d_destructible(C10Bits b, int a_overrides) {
   return b.dt == K_NONE ? true : (b.dt != K_DELETE && b.dt_vis != A_PRIVATE);
